@@ -14,7 +14,7 @@ TITLE = 'inc and exc partition a table; both keep the columns and the row order'
 STATEMENT = ('inc returns exactly the rows satisfying the condition(s) and exc exactly the others, each in original order; both '
              'carry all columns even when no row survives; inc() is the identity; inc is idempotent; find_<col> returns the '
              'unique value among the selected rows and raises if there is none or more than one')
-LEAN_FILES = ['Basic', 'Cmp', 'Sort', 'TableBasic', 'Table', 'Filter', 'FilterDriver', 'TableLemmas', 'TableRect', 'TableRows',
+LEAN_FILES = ['Basic', 'Cmp', 'Sort', 'TableBasic', 'Table', 'TableAlias', 'TableDriver', 'Filter', 'FilterDriver', 'TableLemmas', 'TableRect', 'TableRows',
               'FilterLemmas', 'C06']
 RULE = ('distinct protocol lines (table, condition) on which the implementation returned a table / value; conditions matching '
         'nothing or everything are counted (they are the extremes the property names), empty tables are not')
